@@ -52,7 +52,8 @@ theorem final_exponentiate_optBls_calls (x : OBls12) :
        let p3 := e (e (e (e (e (e p2))))) / p2
        p3 ^ ((blsP ^ 4 - blsP ^ 2 + 1) / optimized_bls12_381_curve_order)) := by
   have h : Gen.ExtraHashCurve.OptBls.exp_by_p = expByP blsExptable := funext Tie.exp_by_p_eq
-  rw [h]; rfl
+  -- through the tie (not by unfolding the generated definition): stays valid when the source is reshaped
+  rw [h, Tie.final_exponentiate_optBls_eq]; rfl
 
 /-! ## the Frobenius shortcut and the fast final exponentiation are exact -/
 
